@@ -45,7 +45,7 @@ def plan(tier):
 
 
 def required_regimes(tier):
-    return {'variant:N=1', 'variant:C=2', 'inv:crop_rows', 'inv:crop_cols', 'inv:no_crop', 'closure:self_loop', 'absent:lowpass', 'absent:level1',
+    return {'variant:N=1', 'variant:C=2', 'variant:no_grad', 'inv:crop_rows', 'inv:crop_cols', 'inv:no_crop', 'closure:self_loop', 'absent:lowpass', 'absent:level1',
             'absent:coarser_level', 'absent:next_to_crop', 'kind:None', 'kind:zero_dim', 'kind:empty'}
 
 
@@ -107,8 +107,12 @@ def run(item):
             try:
                 o1 = dtc.impl_inverse(b, q, tl[:1], [h_[:1] for h_ in th]).numpy()
                 o2 = dtc.impl_inverse(b, q, torch.cat([tl, tl.flip(0)], dim=1), [torch.cat([h_, h_.flip(0)], dim=1) for h_ in th]).numpy()
-                res['impl_calls'] += 2
-                res.regime('variant:N=1', 'variant:C=2')
+                with torch.no_grad():
+                    og = dtc.impl_inverse(b, q, tl, th).numpy()[:, 0]
+                if og.shape != out.shape or not np.array_equal(og, out):
+                    res.violation('synthesis_vs_reference', dict(cfg, variant='no_grad'), {'kind': 'value_or_shape', 'what': 'result under no_grad differs'}, tags)
+                res['impl_calls'] += 3
+                res.regime('variant:N=1', 'variant:C=2', 'variant:no_grad')
                 e2 = np.stack([out, out[::-1]], axis=1)
                 if o1.shape != (1, 1) + out.shape[1:] or common.maxabs(o1[0, 0] - out[0]) > common.TOL * max(1.0, common.maxabs(out)) or \
                         o2.shape != e2.shape or common.maxabs(o2 - e2) > common.TOL * max(1.0, common.maxabs(e2)):
